@@ -29,7 +29,16 @@ Match ==
       [] Ev.a = "Listen"   -> Len(Ev.kinds) = 1 /\ Ev.kinds[1] \in ListenKinds /\ Listen(Ev.kinds[1])
       [] Ev.a = "Exchange" -> Exchange
       [] OTHER -> FALSE
-Guarded == IsEv /\ Match
+\* `args` tells for every target which sized attribute it carries and how long it is: the environment kind of a
+\* target with such an attribute is "invalid" exactly when the length is outside the documented range
+ArgsOk == Ev.a = "Sense" =>
+            /\ Len(Ev.args) = Len(Ev.kinds)
+            /\ \A i \in DOMAIN Ev.args :
+                  /\ Ev.args[i].t = "dep" => ((Ev.kinds[i] = "invalid") = ~AtrReqOk(Ev.args[i].n))
+                  /\ Ev.args[i].t = "sel" => ((Ev.kinds[i] = "invalid") = ~SelReqOk(Ev.args[i].n))
+ListenArgsOk == (Ev.a = "Listen" /\ Len(Ev.args) = 1 /\ Ev.args[1].t = "dep") =>
+                    ((Ev.kinds[1] = "found") = AtrReqOk(Ev.args[1].n))      \* listen() accepts an ATR_REQ of 16..64 bytes
+Guarded == IsEv /\ ArgsOk /\ ListenArgsOk /\ Match
 ResOk == /\ last'.res = Ev.res
          /\ last'.idx = Ev.idx
          /\ last'.sent = (IF Ev.a = "Exchange" THEN Ev.sent ELSE "")
